@@ -62,3 +62,4 @@ Proof.
 Qed.
 Example word_examples : word 0 = "A"%string /\ word 25 = "Z"%string /\ word 26 = "AA"%string /\ word 701 = "ZZ"%string /\ word 702 = "AAA"%string.
 Proof. vm_compute. repeat split. Qed.
+Global Opaque word_bound.
